@@ -6,8 +6,8 @@ package explore
 
 import (
 	"fmt"
-	"runtime"
 	"os"
+	"runtime"
 	"sort"
 	"strings"
 	"time"
